@@ -282,7 +282,11 @@ func strRepeatFunc(_ *ctx.EvalCtx, receiver object.Object, args ...object.Object
 	}
 
 	val := receiver.(*object.Str).Value
-	repeated := strings.Repeat(val, int(firstArg.Value))
+
+	repeated, err := repeatString(val, int(firstArg.Value), "repeat", object.STR_OBJ)
+	if err != nil {
+		return nil, err
+	}
 
 	return &object.Str{Value: repeated}, nil
 }
